@@ -154,7 +154,7 @@ impl<CS: BbsCiphersuite> Signature<BBSplus<CS>> {
         let messages = messages.unwrap_or(&[]);
         let message_scalars = BBSplusMessage::messages_to_scalar::<CS>(messages, CS::API_ID)?;
         let generators = Generators::create::<CS>(messages.len() + 1, Some(CS::API_ID));
-        let signature = self.bbsPlusSignature();
+        let signature = self.inner()?;
 
         core_verify::<CS>(
             pk,
@@ -164,6 +164,14 @@ impl<CS: BbsCiphersuite> Signature<BBSplus<CS>> {
             header,
             Some(CS::API_ID),
         )
+    }
+
+    /// Fallible view of the inner `BBSplusSignature` (a value of another variant can be built through serde).
+    fn inner(&self) -> Result<&BBSplusSignature, Error> {
+        match self {
+            Self::BBSplus(inner) => Ok(inner),
+            _ => Err(Error::UnespectedError),
+        }
     }
 
     /// Returns a reference to the inner `BBSplusSignature`.
@@ -216,6 +224,7 @@ impl<CS: BbsCiphersuite> Signature<BBSplus<CS>> {
         update_index: usize,
         n: usize,
     ) -> Result<Self, Error> {
+        let signature = self.inner()?;
         if update_index >= n {
             return Err(Error::UpdateSignatureError(
                 "update_index >= n".to_owned(),
@@ -239,8 +248,8 @@ impl<CS: BbsCiphersuite> Signature<BBSplus<CS>> {
 
         let H_points = &generators.values[1..];
         let H_i = H_points.get(update_index).ok_or(Error::Unspecified)?;
-        let sk_e = sk.0 + self.e();
-        let mut B = self.a() * sk_e;
+        let sk_e = sk.0 + signature.e;
+        let mut B = signature.A * sk_e;
         B = B + (-H_i * old_message_scalar.value);
         B = B + (H_i * new_message_scalar.value);
 
@@ -252,7 +261,7 @@ impl<CS: BbsCiphersuite> Signature<BBSplus<CS>> {
             return Err(Error::UpdateSignatureError("A == IDENTITY G1".to_owned()));
         }
 
-        return Ok(Self::BBSplus(BBSplusSignature { A, e: self.e() }));
+        return Ok(Self::BBSplus(BBSplusSignature { A, e: signature.e }));
     }
 }
 
